@@ -13,6 +13,11 @@ impl -> spec : whole_font / subset / prince::subset / instance and table sets re
                boundary; short-loca fonts whose glyf rebuilt from WOFF2 lands below / at / above 131070
                bytes), (b) repository fonts chosen by measured features. Every glyph record of every
                written font is walked by the independent reader and its layout judged (GlyphsOK).
+               (c) round 3: WOFF2 collections (ttcf flavour, written by the harness's own encoder) and OpenType
+               collections (TTC) whose members differ in numGlyphs / numberOfHMetrics / loca format / unitsPerEm /
+               glyf and hmtx transform / shared and private tables; EVERY member index is requested (plus one past
+               the end); each member's table set, subsets, whole_font and instances are judged against that member's
+               own hhea / maxp / head and against what the harness prescribed for the member (SfntWrite!MemberOK).
                All projections are judged by Trace_SfntWrite.
 """
 import json
@@ -48,6 +53,13 @@ ASSUMPTIONS = [
     "the structure of a written CFF table (every INDEX, charset and FDSelect coverage, Private DICT extents) is followed "
     "by an independent reader in the harness; SfntWrite!CffStructOK judges the facts; any offSize that holds the "
     "offsets is accepted (Dev_OffSize)",
+    "collections: what a member consists of (numGlyphs, numberOfHMetrics, indexToLocFormat, unitsPerEm, the identity of "
+    "each of its tables) is prescribed by the harness, which writes the collection; SfntWrite!MemberOK compares the "
+    "prescribed values with what the independent reader finds in the member's table set / in the fonts written from it; "
+    "tables an operation re-serialises (WOFF2: transformed glyf, loca, hmtx and head; whole_font: glyf, loca, head, maxp) "
+    "are compared by their key fields, not byte for byte; a reconstructed short loca may come back long when the rebuilt "
+    "glyf has reached 131070 bytes (Dev_LocaUpgrade); a request for a member that does not exist must not yield a "
+    "provider - an error or a panic there produces no event (the panic is reported under recorded_panics_not_judged_here)",
 ]
 
 # families of behaviour that every run must have exercised (measured by the harness on the judged outputs)
@@ -83,6 +95,23 @@ REQUIRED_FAMILIES = [
     "subset.derived:hhea.xMaxExtent", "subset.derived:head.xMin", "subset.derived:head.yMax:smaller-than-source",
     "subset.derived:maxp.maxPoints:smaller-than-source", "subset.derived:maxp.maxContours",
     "subset.derived:maxp.maxComponentElements", "subset.derived:maxp.maxComponentDepth:smaller-than-source",
+    # (6) collections (all counted from the PLANS, i.e. harness inputs, when the member is requested): members > 0 that
+    # differ from member 0 in each quantity a reader looks up per member, shared / private tables, every index + 1
+    "coll.woff2.member>0-requested", "coll.ttc.member>0-requested",
+    "coll.woff2.member>0.nhm-differs+hmtx-transformed",
+    "coll.woff2.member>0.nhm-larger-than-member0+hmtx-transformed", "coll.woff2.member>0.nhm-smaller-than-member0+hmtx-transformed",
+    "coll.woff2.member>0.numGlyphs-differs", "coll.woff2.member>0.numGlyphs-larger-than-member0",
+    "coll.woff2.member>0.numGlyphs-smaller-than-member0", "coll.woff2.member>0.locFormat-differs",
+    "coll.woff2.member>0.upem-differs", "coll.woff2.member>0.shared-glyf.private-hmtx",
+    "coll.woff2.member>0.shared-glyf.private-transformed-hmtx", "coll.woff2.member>0.shared-head-maxp.private-hhea",
+    "coll.woff2.member>0.fully-private", "coll.woff2.member>0.fully-shared", "coll.woff2.member>0.glyf-plain",
+    "coll.woff2.member>0.glyf-transformed", "coll.woff2.member>0.hmtx-plain", "coll.woff2.member>0.hmtx-transformed",
+    "coll.woff2.idx-order:0", "coll.woff2.idx-order:1", "coll.woff2.idx-order:2", "coll.woff2.idx-order:3",
+    "coll.woff2.single-member-collection", "coll.woff2.past-the-end-requested",
+    "coll.ttc.member>0.numGlyphs-differs", "coll.ttc.member>0.nhm-differs", "coll.ttc.member>0.locFormat-differs",
+    "coll.ttc.member>0.upem-differs", "coll.ttc.member>0.shared-glyf.private-hmtx", "coll.ttc.member>0.fully-private",
+    "coll.ttc.member>0.cff", "coll.ttc.member>0.subset-requested", "coll.ttc.member>0.instance-requested",
+    "coll.ttc.layout:0", "coll.ttc.layout:1", "coll.ttc.layout:2", "coll.ttc.past-the-end-requested",
 ]
 
 
@@ -108,6 +137,16 @@ def _detail_key(ev, violated=(), m=None):
     if "DerivedOK" in violated:
         parts.append("derived=%s:%s" % ("/".join(m.get("derived_classes") or ["?"]),
                                         "recomputed!=definition" if x.get("op") == "instance" else "copied-bound-lost"))
+    if "MemberOK" in violated:
+        # which prescribed quantities / tables of the requested member are not the ones found (never the member index)
+        if ev["ev"] == "NoSuchMember":
+            parts.append("member=%s:provider-for-index=members" % ev["a"]["args"].get("container"))
+        else:
+            mem = x.get("member", {})
+            fields = {f["name"] for f in mem.get("fields", [])}
+            names = m.get("member") or ["?"]
+            parts.append("member=%s:%s" % (mem.get("container"), "/".join(
+                sorted(n if n in fields else "table:" + n.strip() for n in names))))
     if "VmtxOK" in violated:
         parts.append("vmtx<numOfLongVerMetrics,numGlyphs")
     if "CffStructOK" in violated:
@@ -131,7 +170,14 @@ def _detail_key(ev, violated=(), m=None):
         need = 4 * x["nHM"] + 2 * (x["numGlyphs"] - x["nHM"])
         ex = x["hmtxLen"] - need
         if ex:
-            parts.append("hmtxExcess=%s" % ("2*numGlyphs" if ex == 2 * x["numGlyphs"] else ex))
+            # the length fits ANOTHER numberOfHMetrics k (4*k + 2*(numGlyphs - k)): the class, not the number
+            k2 = x["hmtxLen"] - 2 * x["numGlyphs"]
+            if ex == 2 * x["numGlyphs"]:
+                parts.append("hmtxExcess=2*numGlyphs")
+            elif k2 % 2 == 0 and 1 <= k2 // 2 <= x["numGlyphs"] and x["numGlyphs"] > 0:
+                parts.append("hmtxLen=4*k+2*(numGlyphs-k):k%snumberOfHMetrics" % ("<" if k2 // 2 < x["nHM"] else ">"))
+            else:
+                parts.append("hmtxLen%sneed" % ("<" if ex < 0 else ">"))
     if "LocaOK" in violated and x:
         need = (x["numGlyphs"] + 1) * (2 if x["locFormat"] == 0 else 4)
         if x["locaLen"] != need:
@@ -175,7 +221,8 @@ def _blank_cross(op):
             "counts": {"hasVhea": False, "hasVmtx": False, "nVM": -1, "vmtxLen": -1, "postNumGlyphs": -1, "srcVmtxOk": False,
                        "srcPostOk": False},
             "cffw": {"walked": False, "why": "absent", "indexes": [], "numGlyphs": -1, "charsetOk": True, "charset": "none",
-                     "fdSelectGlyphs": -1, "fdMax": -1, "fdCount": -1, "privateOk": True}}
+                     "fdSelectGlyphs": -1, "fdMax": -1, "fdCount": -1, "privateOk": True},
+            "member": {"is": False, "container": "none", "index": -1, "members": -1, "fields": [], "tables": []}}
 
 
 def _d(name, rel, field, measured, src_field, src_measured, src_has=True):
@@ -198,6 +245,20 @@ def _with_cff(x, **kw):
     x["numGlyphs"] = 6
     x["cffCharstrings"] = 6
     x["cffw"] = _cffw(**kw)
+
+
+def _member(x, n, nhm, hmtx_len, want_nhm=None, loc=(0, 0), glyf_len=-1, tables=(), built_hmtx=True):
+    """Member 1 of a two-member WOFF2 collection (hand-written): maxp / hhea / hmtx of the reconstructed table set and
+    what was prescribed for the member."""
+    x["has"].update(maxp=True, hhea=True, hmtx=True)
+    x.update(numGlyphs=n, nHM=nhm, hmtxLen=hmtx_len, glyfLen=glyf_len)
+    x["built"].update(hmtx=built_hmtx, loca=True)
+    x["member"] = {"is": True, "container": "woff2-collection", "index": 1, "members": 2,
+                   "fields": [{"name": "numGlyphs", "want": n, "got": n},
+                              {"name": "nHM", "want": nhm if want_nhm is None else want_nhm, "got": nhm},
+                              {"name": "locFormat", "want": loc[0], "got": loc[1]},
+                              {"name": "upem", "want": 1000, "got": 1000}],
+                   "tables": [{"tag": t, "want": w, "got": g, "rebuilt": r} for t, w, g, r in tables]}
 
 
 _BAD_INDEX = {"name": "charstrings", "count": 3, "offSize": 1, "first": 1, "last": 0, "mono": False, "inside": False, "dataLen": 0}
@@ -238,6 +299,29 @@ _HAND_PLANTS = [
      lambda x: _with_cff(x, walked=False, why="topdict")),
     ("selftest-accept:cff-well-formed", "subset",
      lambda x: _with_cff(x, fdCount=2, fdSelectGlyphs=6, fdMax=1)),
+    # round 3: collection members. Member 0 has numberOfHMetrics 1, member 1 has 4 (4 glyphs): an hmtx for member 1
+    # decoded with member 0's count is 4*1 + 2*3 = 10 bytes where member 1's own hhea / maxp demand 16
+    ("selftest-reject:HmtxOK:member1-hmtx-has-the-length-of-member0-nHM", "woff2",
+     lambda x: _member(x, 4, 4, 10)),
+    ("selftest-accept:member1-hmtx-has-its-own-length", "woff2",
+     lambda x: _member(x, 4, 4, 16)),
+    # the table set is self-consistent but hhea is member 0's (numberOfHMetrics 1 where 4 was prescribed)
+    ("selftest-reject:MemberOK:member1-holds-hhea-of-member0", "woff2",
+     lambda x: _member(x, 4, 1, 10, want_nhm=4)),
+    ("selftest-reject:MemberOK:member1-holds-a-copied-table-of-member0", "woff2",
+     lambda x: _member(x, 4, 4, 16, tables=[("cmap", [1, 2, 30], [7, 9, 30], False)])),
+    ("selftest-reject:MemberOK:member1-holds-a-table-it-does-not-have", "whole_font",
+     lambda x: _member(x, 4, 4, 16, tables=[("kern", [-1, -1, -1], [7, 9, 30], False)])),
+    ("selftest-accept:member1-rebuilt-table-differs-byte-for-byte", "woff2",
+     lambda x: _member(x, 4, 4, 16, tables=[("glyf", [1, 2, 30], [7, 9, 44], True), ("cmap", [5, 5, 20], [5, 5, 20], False)])),
+    ("selftest-reject:MemberOK:member1-long-loca-where-short-was-prescribed", "woff2",
+     lambda x: _member(x, 4, 4, 16, loc=(0, 1), glyf_len=5000)),
+    ("selftest-accept:member1-loca-upgraded-for-a-big-glyf", "woff2",
+     lambda x: _member(x, 4, 4, 16, loc=(0, 1), glyf_len=140000)),
+    ("selftest-accept:subset-of-member1-has-fewer-glyphs", "subset",
+     lambda x: (_member(x, 3, 3, 12), x["member"]["fields"][0].update(want=4), x["member"]["fields"][1].update(want=4))),
+    ("selftest-reject:MemberOK:instance-of-member1-has-unitsPerEm-of-member0", "instance",
+     lambda x: (_member(x, 4, 4, 16), x["member"]["fields"][3].update(want=2048))),
 ]
 
 
@@ -344,6 +428,9 @@ def run(ctx):
             edit(x)
             planted_events.append({"i": 10 ** 8 + len(planted_events), "case": name, "ev": "Tables",
                                    "a": {"op": op, "args": {}}, "o": {"cross": x}})
+        planted_events.append({"i": 10 ** 8 + len(planted_events), "case": "selftest-no-such-member", "ev": "NoSuchMember",
+                               "a": {"op": "table_provider", "args": {"container": "woff2", "members": 2, "index": 2, "tables": 9}},
+                               "o": {}})
         for b in planted_events:
             f.write(json.dumps(b, separators=(",", ":")) + "\n")
     total, mism = vlib.judge_trace_parallel(ctx, "Trace_SfntWrite", "Trace_SfntWrite.cfg", trace, "judge",
@@ -373,7 +460,8 @@ def run(ctx):
     expect_planted = {"selftest-corrupt-sum": "ChecksumsOK", "selftest-corrupt-align": "LayoutOK",
                       "selftest-head-short-loca-long": "LocaOK", "selftest-composite-width": "GlyphsOK",
                       "selftest-composite-short": "GlyphsOK", "selftest-composite-instr": "GlyphsOK",
-                      "selftest-composite-eof": "GlyphsOK", "selftest-record-slack": "GlyphsOK"}
+                      "selftest-composite-eof": "GlyphsOK", "selftest-record-slack": "GlyphsOK",
+                      "selftest-no-such-member": "MemberOK"}
     planted_names = {b["case"] for b in planted_events}
     expect_planted = {c: v for c, v in expect_planted.items() if c in planted_names}
     expect_planted.update({n: n.split(":")[1] for n, _, _ in _HAND_PLANTS if n.startswith("selftest-reject:")})
